@@ -535,6 +535,19 @@ pub fn c07(a: &Args) -> CaseSet {
             cs.add(&t0, prog, vec![Query::Vars], format!("corpus: {text:?}"), "corpus", 2, |obs| (Some(obs[0] == Obs::E), format!("accepted or crashed: {}", pretty_obs(&obs[0]))));
         }
     }
+    // a closing parenthesis too many, made up for later, with a comma behind: the call rewrite must not reach back across
+    // the place where the parenthesis depth of the text went negative
+    for tb in std_tables().iter().take(4) {
+        let callable: Vec<String> = tb.iter().filter(|o| o.bin.is_some()).map(|o| o.repr.clone()).take(6).collect();
+        let between: Vec<String> = tb.iter().filter(|o| o.bin.is_some() && !is_alpha_name(&o.repr)).map(|o| o.repr.clone()).take(3).collect();
+        for f in &callable { for o in &between {
+            for t in [format!("{f}(1)){o}((2,3)"), format!("{f}(x)){o}((y,3)"), format!("{f}(1)){o}(((2),3)"), format!("2{o}{f}(1)){o}((2,3)"), format!("({f}(1)){o}((2,3))"), format!("{f}(1)){o}(2){o}((2,3)"), format!("{f}(1))){o}(((2,3)")] {
+                for prog in [Prog::Flat(t.clone()), Prog::FlatWo(t.clone()), Prog::Deep(t.clone())] {
+                    cs.add(tb, prog, vec![Query::Vars], format!("[paren-depth-negative-before-comma] {t:?}"), "paren-depth-negative-before-comma", 2, |obs| (Some(obs[0] == Obs::E), format!("accepted or crashed: {}", pretty_obs(&obs[0]))));
+                }
+            }
+        } }
+    }
     // an operator without an operand in front of a closing parenthesis (a unary-only one, a sign, a binary one), in
     // surroundings where what follows the parenthesis could be taken for the missing operand
     for tb in std_tables().iter().take(4) {
@@ -970,7 +983,7 @@ pub fn c13(a: &Args) -> CaseSet {
             }
             // sign chains
             let (plus, minus) = (0usize, 1usize);
-            for n in 1..=5 {
+            for n in [1usize, 2, 3, 4, 5, 15, 16, 17, 18, 32, 33, 40] {
                 let signs: Vec<usize> = (0..n).map(|_| if r.chance(1, 2) { plus } else { minus }).collect();
                 let s: String = signs.iter().map(|k| tb[*k].repr.as_str()).collect();
                 let un = |t: Term| wrap_un(&signs, t);
@@ -1601,6 +1614,23 @@ pub fn c06(a: &Args) -> CaseSet {
                     panics += 1;
                     if panics <= 20 { cs.add(&tb, Prog::Flat(t.clone()), vec![Query::Vars], format!("[{}] {t:?}: {call} panicked", if which == 0 { "f64" } else { "Val" }), "exhaustive-short-strings", 2, move |_| (Some(false), format!("{call} panicked"))); }
                 }
+            }
+        }
+    }
+    // value-typed texts with array literals and boundary operands (folded at parse time: a panicking operator is a
+    // panicking parse), through every value-typed entry point and follow-up call
+    {
+        let ops2 = ["+", "-", "*", "/", "%", "^", "cross", "dot", "min", "max", "==", "<", "&&", "||", "<<", ">>", "|", "&", "if", "else", "atan2"];
+        let args = ["[1,2]", "[3,4]", "[1,2,3]", "[4,5,6]", "[]", "[1]", "[1.5,2]", "1", "0", "-1", "2.5", "0.0", "21", "33", "64", "-2147483647-1", "2147483647", "true", "(5 if false)", "(1/0)", "4", "16", "65536", "1e10"];
+        let uns = ["fact", "to_int", "to_float", "abs", "-", "!", "sqrt", "ln", "floor", "signum", "sin"];
+        let mut texts: Vec<String> = vec![];
+        for o in ops2 { for (i, x) in args.iter().enumerate() { for (j, y) in args.iter().enumerate() { if (i + 2 * j) % 3 == 0 || a.thorough { texts.push(format!("{x} {o} {y}")); } if (i + j) % 7 == 0 && o.chars().all(|c| c.is_alphabetic()) { texts.push(format!("{o}({x}, {y})")); } } } }
+        for u in uns { for x in args { texts.push(format!("{u}({x})")); } }
+        for t in texts {
+            count += 1;
+            if let Err(call) = follow_up_val(&t) {
+                panics += 1;
+                if panics <= 40 { cs.add(&tb, Prog::Flat(t.clone()), vec![Query::Vars], format!("[Val] {t:?}: {call} panicked"), "value-typed-operands", 2, move |_| (Some(false), format!("{call} panicked"))); }
             }
         }
     }
